@@ -420,12 +420,25 @@ def _leaves(t, tests, out, limit):
             return
         if key[0] == "if":
             c = key[1]
+            if _is_decision(c):
+                # the condition is itself a decision (a helper returning bool through early returns, a match): follow its outcomes
+                for ts2, pv in bool_leaves(c, tests):
+                    if isinstance(pv, tuple) and pv[:1] == ("lit",) and isinstance(pv[1], bool):
+                        for lab, v in arms:
+                            if (lab == "then") == pv[1]:
+                                _leaves(v, list(ts2), out, limit)
+                return
             for lab, v in arms:
                 r = cond_tests(c, lab == "then")
                 if r is False:
                     continue
                 _leaves(v, tests + r, out, limit)
             return
+    if k == "if" and len(t) == 4 and _is_decision(t[1]):
+        for ts2, pv in bool_leaves(t[1], tests):
+            if isinstance(pv, tuple) and pv[:1] == ("lit",) and isinstance(pv[1], bool):
+                _leaves(t[2] if pv[1] else t[3], list(ts2), out, limit)
+        return
     if k == "if" and len(t) == 4:
         for pol, v in ((True, t[2]), (False, t[3])):
             r = cond_tests(t[1], pol)
@@ -484,6 +497,13 @@ def _leaves(t, tests, out, limit):
     if k == "acc" and len(t) == 2:
         return _leaves(t[1], tests, out, limit)
     out.append((tuple(tests), t))
+
+
+def _is_decision(c):
+    """a condition term that is a decision tree of its own (possibly under a negation)"""
+    while isinstance(c, tuple) and c[:2] == ("op", "Not") and len(c) == 3:
+        c = c[2]
+    return isinstance(c, tuple) and c and (c[0] == "returns" or (c[0] == "match" and len(c) == 3 and isinstance(c[2], tuple)) or (c[0] == "if" and len(c) == 4) or c[0] == "phi")
 
 
 def _bool_op(conj, a, b):
@@ -930,3 +950,37 @@ def same_decision(lv1, lv2, value=lambda v: v):
         if t1[bits] != t2[bits]:
             return False, {"when": [(a[1], b) for a, b in zip(atoms, bits)], "first": sorted(map(repr, t1[bits]))[:3], "second": sorted(map(repr, t2[bits]))[:3]}
     return True, None
+
+
+def entails(ts, fact):
+    """do the facts ts (a conjunction) entail `fact`?  Decided over every truth assignment of their atoms in which one value has one variant."""
+    import itertools
+    atoms = []
+    for t in list(ts) + [fact]:
+        test_atoms(t, atoms)
+    # a Result is Ok or Err, an Option Some or None: the other variant of a two-variant std enum is an atom too, and one of the two holds
+    CLOSED = {"Result": ("Result::Ok", "Result::Err"), "Option": ("Option::Some", "Option::None")}
+    subjects = {}
+    for a in list(atoms):
+        if a[0] == "t" and a[1][0] == "is" and a[1][2].split("::")[0] in CLOSED:
+            fam = CLOSED[a[1][2].split("::")[0]]
+            subjects[a[1][1]] = fam
+            for v_ in fam:
+                if ("t", ("is", a[1][1], v_)) not in atoms:
+                    atoms.append(("t", ("is", a[1][1], v_)))
+    if len(atoms) > 16:
+        raise OverflowError("too many atomic conditions: %d" % len(atoms))
+    for bits in itertools.product((False, True), repeat=len(atoms)):
+        asg = dict(zip(atoms, bits))
+        ok = all(any(asg[("t", ("is", s_, v_))] for v_ in fam) for s_, fam in subjects.items())
+        for a, b in asg.items():
+            if b and a[0] == "t" and a[1][0] == "is":
+                for a2, b2 in asg.items():
+                    if b2 and a2 is not a and a2[0] == "t" and a2[1][0] == "is" and a2[1][1] == a[1][1] and a2[1][2] != a[1][2] \
+                            and a2[1][2].split("::")[0] == a[1][2].split("::")[0]:
+                        ok = False
+        if not ok:
+            continue
+        if all(test_holds(t, asg) for t in ts) and not test_holds(fact, asg):
+            return False
+    return True
